@@ -21,6 +21,10 @@ def kind_walker(body, lib, kind, self_param=1, extra_atom=None):
     def atom(t):
         if t == ("discr", ("param", self_param)):
             return kind
+        # case analysis on an accessor's answer (`self.as_object().and_then(..)`, `if let Some(m) = self.as_object()`):
+        # the accessor tables (checked separately) say it is Some exactly for its own kind
+        if t[0] == "discr" and t[1][0] == "view" and t[1][2] == ("param", self_param) and t[1][1] in VIEW_KIND:
+            return "Some" if VIEW_KIND[t[1][1]] == kind else "None"
         if extra_atom:
             return extra_atom(t)
         return None
